@@ -161,6 +161,12 @@ func (g *gen) fill(v reflect.Value, depth int) {
 	case reflect.Struct:
 		for i := 0; i < t.NumField(); i++ {
 			if v.Field(i).CanSet() {
+				if t.Field(i).Name == "ElapsedTime" && t.Field(i).Type == tDuration {
+					// a data point's elapsed time is a signed 64-bit nanosecond count on the wire: every value, negative ones
+					// included, is canonical and must survive unchanged
+					v.Field(i).SetInt([]int64{0, 1, -1, -5, 999, 1500000000, -1500000000, 1 << 40, -(1 << 40), 1<<63 - 1, -1 << 63, g.rng.Int63(), -g.rng.Int63()}[g.rng.Intn(13)])
+					continue
+				}
 				g.fill(v.Field(i), depth+1)
 			}
 		}
@@ -300,9 +306,9 @@ func firstDiff(a, b string) string {
 
 type pipeRW struct{ msgs chan []byte }
 
-func (p *pipeRW) Read() ([]byte, error)       { return <-p.msgs, nil }
-func (p *pipeRW) Write(b []byte) error        { p.msgs <- b; return nil }
-func (p *pipeRW) Close() error                { return nil }
+func (p *pipeRW) Read() ([]byte, error) { return <-p.msgs, nil }
+func (p *pipeRW) Write(b []byte) error  { p.msgs <- b; return nil }
+func (p *pipeRW) Close() error          { return nil }
 
 // framePipe: the broker side of a reliable transport at frame level: `in` carries raw frames to the client, `out` what it writes
 type framePipe struct {
@@ -337,8 +343,8 @@ func (p *framePipe) Write(b []byte) error {
 func (p *framePipe) Close() error                { p.once.Do(func() { close(p.closed) }); return nil }
 func (p *framePipe) RxBytesCounterValue() uint64 { return 0 }
 func (p *framePipe) TxBytesCounterValue() uint64 { return 0 }
-func (p *pipeRW) RxBytesCounterValue() uint64 { return 0 }
-func (p *pipeRW) TxBytesCounterValue() uint64 { return 0 }
+func (p *pipeRW) RxBytesCounterValue() uint64    { return 0 }
+func (p *pipeRW) TxBytesCounterValue() uint64    { return 0 }
 
 var _ transport.ReadWriter = (*pipeRW)(nil)
 
